@@ -16,6 +16,8 @@ def nontrivial(kind, st, r):
         return g("m") >= 2 and g("reach") >= 2
     if kind in ("dfs", "kahn", "scc", "topo"):
         return g("n") >= 3 and g("m") >= 2
+    if kind == "convseq":
+        return True
     if kind in ("sig", "vset", "opts", "result"):
         return g("size", 1) >= 1
     if kind == "hist":
@@ -85,7 +87,8 @@ PROPS = {
         "theorems": ["ArgMapper.C15.values_roundtrip", "ArgMapper.C15.lookup_named", "ArgMapper.C15.lookup_typed", "ArgMapper.C15.lookup_typed_sub", "ArgMapper.C15.signature_roundtrip", "ArgMapper.C15.signature_positional_pre_repair"],
         "modules": ["ArgMapper.Props.C15"],
         "rule": "vset: at least one value; sig: positional signatures.",
-        "runs": {"quick": [fam("vset", 1500, 6), fam("sig", 1000, 5)], "thorough": [fam("vset", 100000, 6), fam("sig", 50000, 5)]},
+        "runs": {"quick": [fam("vset", 1500, 6), fam("sig", 1000, 5), fam("call", 500, 0, "general")],
+                 "thorough": [fam("vset", 100000, 6), fam("sig", 50000, 5), fam("call", 60000, 0, "general")]},
     },
     "C16": {
         "claim": "Theorems about the option builder: every key holds its last write, names are matched through lower-casing, call options override defaults, nil values write nothing, a nil option yields the dedicated error, permuting options with pairwise distinct keys leaves the maps unchanged. Tied to the code by comparing the real builder's four maps (hook VerifBuilder) with the model over random option lists with casings, duplicates, default/call splits and a random permutation.",
@@ -101,13 +104,13 @@ PROPS = {
         "theorems": ["ArgMapper.C17.partition_err", "ArgMapper.C17.partition_plain", "ArgMapper.C17.resolution_failure"],
         "modules": ["ArgMapper.Props.C17"],
         "rule": "result: any scenario (arity 0 included).",
-        "runs": {"quick": [fam("result", 2000, 5)], "thorough": [fam("result", 100000, 5)]},
+        "runs": {"quick": [fam("result", 2000, 5), fam("hist", 500, 0)], "thorough": [fam("result", 100000, 5), fam("hist", 40000, 0)]},
         "exhaustive": {"quick": False, "thorough": False},
     },
     "C01": {
         "claim": "Theorems: the matching table is closed under flow along the edge rules (flow_compat, needs ImplTrans and ImplAntisym); every edge of the graph callGraph builds is an instance of a rule (callGraph_edges); for every oracle and behaviour every executed function receives a full argument list whose members entered the graph at an origin vertex and flowed to the parameter vertex (call_args_flow); together: injection_sound_partial. Every executed function receives supplied or previously returned values whose origin label is compatible with the parameter under the matching table. Tied to the code by trace conformance: the real call graph, requirement order, Dijkstra pop orders, chosen paths, every argument list and the outcome are replayed through the model; the predicate is evaluated on the real trace with provenance ids.",
         "note": "reflect / hclog / user function bodies are modelled (arbitrary behaviours); twin interfaces (finding F14) excluded by hypothesis once proved.",
-        "theorems": ["ArgMapper.C01.flow_compat", "ArgMapper.C01.callGraph_edges", "ArgMapper.C01.call_args_flow", "ArgMapper.C01.initSt_storeOK", "ArgMapper.C01.flow_ruleFlow", "ArgMapper.C01.callGraph_store_origin", "ArgMapper.C01.injection_sound_partial", "ArgMapper.C01.counterexample_twin_interfaces"],
+        "theorems": ["ArgMapper.C01.flow_compat", "ArgMapper.C01.callGraph_edges", "ArgMapper.C01.call_args_flow", "ArgMapper.C01.initSt_storeOK", "ArgMapper.C01.flow_ruleFlow", "ArgMapper.C01.callGraph_store_origin", "ArgMapper.C01.injection_sound_partial", "ArgMapper.C01.counterexample_twin_interfaces", "ArgMapper.C01.newFunc_keysOK", "ArgMapper.C01.callGraph_no_arg_root", "ArgMapper.C01.stdCtx_funcsOK", "ArgMapper.C01.injection_sound"],
         "facts": {"r5SkipSame": "true", "r6NameTest": "true", "publishAfterUpdate": "true", "trackReaching": "true", "takeValuedNamed": "true", "memoCopy": "true"},
         "rule": "call: at least one function executed, or an unsatisfied error with a converter present.",
         "runs": {"quick": [fam("call", 600, 0)], "thorough": [fam("call", 100000, 0)]},
@@ -124,7 +127,7 @@ PROPS = {
     "C02": {
         "claim": "(theorems pending) Unsatisfiable calls are refused: error returned, target never run, no converter run with a missing argument, dedicated error type when every converter is satisfiable. Tied to the code by trace conformance on scenarios with a hopeless / underivable parameter (dead types, AND-unreachable converters, cycles) and the predicate evaluated on the real trace against the executable derivability fixpoint.",
         "note": "derivability is computed under the matching table of C01 (a superset of what the library can match, so the premise is conservative).",
-        "theorems": [], "facts": {"r5SkipSame": "true", "r6NameTest": "true", "publishAfterUpdate": "true", "trackReaching": "true", "takeValuedNamed": "true", "memoCopy": "true"},
+        "theorems": ["ArgMapper.C13.hopeless_reported", "ArgMapper.C13.unsat_before_execution", "ArgMapper.C13.exact_not_listed"], "facts": {"r5SkipSame": "true", "r6NameTest": "true", "publishAfterUpdate": "true", "trackReaching": "true", "takeValuedNamed": "true", "memoCopy": "true"},
         "rule": "call: at least one function executed, or an unsatisfied error with a converter present.",
         "runs": {"quick": [fam("call", 500, 0, "hopeless"), fam("call", 300, 0, "general")],
                  "thorough": [fam("call", 60000, 0, "hopeless"), fam("call", 40000, 0, "general")]},
@@ -158,9 +161,9 @@ PROPS = {
     },
     "C13": {
         "claim": "(theorems pending) The unsatisfied-argument error lists the hopeless parameter, only underivable parameters, exactly the supplied values, every supplied converter, and its message mentions each missing argument. Tied to the code by comparing the structured error fields (errors.As) of the real code with the model on scenarios with a hopeless parameter.",
-        "note": "", "theorems": [], "facts": {"r5SkipSame": "true", "r6NameTest": "true", "publishAfterUpdate": "true", "trackReaching": "true", "takeValuedNamed": "true", "memoCopy": "true"},
+        "note": "", "theorems": ["ArgMapper.C13.hopeless_reported", "ArgMapper.C13.unsat_before_execution", "ArgMapper.C13.unsat_are_parameters", "ArgMapper.C13.exact_not_listed", "ArgMapper.C13.inputs_are_supplied"], "facts": {"r5SkipSame": "true", "r6NameTest": "true", "publishAfterUpdate": "true", "trackReaching": "true", "takeValuedNamed": "true", "memoCopy": "true"},
         "rule": "call: an unsatisfied error with a converter present, or a function executed.",
-        "runs": {"quick": [fam("call", 600, 0, "hopeless")], "thorough": [fam("call", 50000, 0, "hopeless")]},
+        "runs": {"quick": [fam("call", 600, 0, "hopeless"), fam("hist", 400, 0)], "thorough": [fam("call", 50000, 0, "hopeless"), fam("hist", 30000, 0)]},
     },
     "C08": {
         "claim": "(theorems pending) Redefine yields a function over exactly the missing, permitted inputs. Tied to the code by replaying the planning run (redefine-mode reachTarget with zero-producing stand-ins) through the model: call graph with filter-gated root edges, requirement order, pop orders, paths and the declared input set are compared; the redefined function is then called and the inner Call is replayed as an ordinary call with the extra values.",
@@ -181,7 +184,7 @@ PROPS = {
         "note": "the library's own identity closure cannot be instrumented: its behaviour (returns its argument) is assumed in the replay of Convert runs.",
         "theorems": [], "facts": {"r5SkipSame": "true", "r6NameTest": "true", "publishAfterUpdate": "true", "trackReaching": "true", "takeValuedNamed": "true", "memoCopy": "true", "r8SkipSupplied": "true", "skipRecordsInput": "false", "dupIsError": "true"},
         "rule": "conv: at least one function executed, or an unsatisfied error with a converter present.",
-        "runs": {"quick": [fam("conv", 500, 0)], "thorough": [fam("conv", 50000, 0)]},
+        "runs": {"quick": [fam("conv", 500, 0), fam("convseq", 60, 0)], "thorough": [fam("conv", 50000, 0), fam("convseq", 2000, 0)]},
     },
     "C11": {
         "claim": "(theorems pending) A run-once function executes at most once over any history and later uses see the first result. Sequential part: histories of Call / Redefine on shared function objects are replayed through the model with the memo cells threaded, and the number of executions per run-once function is counted on the real trace. Concurrent part: see DESIGN.md (race-detector stress; not yet registered).",
